@@ -3,6 +3,8 @@ Native model driver: one request per line on stdin, one reply per line on stdout
 The only state kept between lines is the current layout (set by `L`).
 -/
 import TmVerif.Driver.MapperCmd
+import TmVerif.Driver.LoopCmd
+import TmVerif.Driver.BytesCmd
 
 open TmVerif TmVerif.Proto
 
@@ -18,6 +20,12 @@ def handleLine (st : DriverState) (line : String) : DriverState × String :=
     | none => (st, "bad-request")
   | _ =>
     match MapperCmd.handle st.layout toks with
+    | some r => (st, r)
+    | none =>
+    match LoopCmd.handle st.layout toks with
+    | some r => (st, r)
+    | none =>
+    match BytesCmd.handle toks with
     | some r => (st, r)
     | none => (st, "bad-request")
 
